@@ -44,10 +44,15 @@ def peers(tier):
                                  mac=['hmac-sha2-256-etm@openssh.com', 'hmac-sha2-512-etm@openssh.com', 'umac-128-etm@openssh.com', 'hmac-sha1-etm@openssh.com'], banner=b'SSH-2.0-OpenSSH_9.6'),
         'client-role': dict(client_role=True, kex=['curve25519-sha256', 'diffie-hellman-group14-sha1', 'kex-strict-c-v00@openssh.com'], key=['ssh-ed25519', 'ssh-rsa'],
                             enc=['chacha20-poly1305@openssh.com', 'aes128-cbc', 'aes256-ctr'], mac=['hmac-sha1-etm@openssh.com', 'hmac-sha2-256'], banner=b'SSH-2.0-PuTTY_Release_0.76'),
+        # the two directions of a KEXINIT may differ; every renderer rates the same (server-to-client) half
+        'asym': dict(kex=['curve25519-sha256'], key=['ssh-ed25519'], enc=['aes256-ctr', 'arcfour', '3des-cbc'], mac=['hmac-sha2-256', 'hmac-md5', 'hmac-sha1'],
+                     enc_c2s=['aes256-gcm@openssh.com', 'aes128-ctr'], mac_c2s=['hmac-sha2-512', 'umac-128@openssh.com'], banner=b'SSH-2.0-OpenSSH_9.6'),
+        'asym-clean-s2c': dict(kex=['sntrup761x25519-sha512@openssh.com'], key=['ssh-ed25519'], enc=['aes256-gcm@openssh.com'], mac=['hmac-sha2-256-etm@openssh.com'],
+                               enc_c2s=['arcfour', 'aes256-gcm@openssh.com'], mac_c2s=['hmac-md5'], banner=b'SSH-2.0-OpenSSH_9.6'),
         'nonascii-banner': dict(kex=['curve25519-sha256'], key=['ssh-ed25519'], enc=['aes256-ctr'], mac=['hmac-sha2-256'], banner=b'SSH-2.0-Frob\x80SSH'),
     }
     if tier == 'quick':
-        keep = ['clean', 'warn-only', 'fail-mixed', 'terrapin', 'unknown', 'gss', 'rsa2048', 'gex1024', 'ssh1', 'header', 'cert', 'nonascii-banner', 'strict-kex-multi', 'client-role']
+        keep = ['clean', 'warn-only', 'fail-mixed', 'terrapin', 'unknown', 'gss', 'rsa2048', 'gex1024', 'ssh1', 'header', 'cert', 'nonascii-banner', 'strict-kex-multi', 'client-role', 'asym', 'asym-clean-s2c']
         ps = {k: ps[k] for k in keep}
     else:
         # every severity mix of the database per category as extra peers
